@@ -110,20 +110,31 @@ pub fn run_case(c: &Case) -> (String, String) {
     let mut now = T0;
     // oracle bookkeeping (independent of the model)
     let mut logs: Vec<String> = Vec::new();
+    // what the screen shows given the listed finding F30: an empty first line written by ordinary output
+    // (a `suspend` closure) while the cursor is parked in the last column only ends that row
+    let mut logs_f30: Vec<String> = Vec::new();
+    let mut f30: Option<String> = None;
     let mut hidden = false;
     let mut verdict = String::from("ok");
     let mut fin_state = (0u64, false);
     for (k, op) in c.ops.iter().enumerate() {
         let before = rec.st.lock().unwrap().snapshots.len();
         let Some(bar) = pb.as_ref() else { break };
-        let mut mid_logs: Option<Vec<String>> = None;
+        let mut mid_logs: Option<(Vec<String>, Vec<String>)> = None;
         match op {
             BOp::Adv(d) => { now += d; vh::set_now_ns(now); }
             BOp::Tick => bar.tick(), BOp::Inc(d) => bar.inc(*d), BOp::Dec(d) => bar.dec(*d), BOp::SetPos(p) => bar.set_position(*p),
             BOp::Msg(m) => bar.set_message(m.clone()), BOp::Prefix(m) => bar.set_prefix(m.clone()),
             BOp::Len(None) => bar.unset_length(), BOp::Len(Some(l)) => bar.set_length(*l),
-            BOp::Println(m) => { bar.println(m); if m.is_empty() { logs.push(String::new()) } else { logs.extend(m.lines().map(|l| l.to_string())) } }
-            BOp::Suspend(ls) => { mid_logs = Some(logs.clone()); let r2 = rec.clone(); let ls2 = ls.clone(); bar.suspend(move || { for l in &ls2 { r2.write_line(l).unwrap(); } }); logs.extend(ls.iter().cloned()); }
+            BOp::Println(m) => { bar.println(m); let new: Vec<String> = if m.is_empty() { vec![String::new()] } else { m.lines().map(|l| l.to_string()).collect() }; logs.extend(new.iter().cloned()); logs_f30.extend(new); }
+            BOp::Suspend(ls) => {
+                mid_logs = Some((logs.clone(), logs_f30.clone()));
+                let r2 = rec.clone(); let ls2 = ls.clone(); let w = c.w;
+                let parked = bar.suspend(move || { let parked = r2.cursor().1 == w; for l in &ls2 { r2.write_line(l).unwrap(); } parked });
+                logs.extend(ls.iter().cloned());
+                let swallowed = parked && ls.first().map_or(false, |l| l.is_empty());
+                logs_f30.extend(ls.iter().skip(if swallowed { 1 } else { 0 }).cloned());
+            }
             BOp::Reset => { bar.reset(); hidden = false; }
             BOp::Finish(f) => { match f { Fin::Leave => bar.finish(), Fin::Clear => bar.finish_and_clear(), Fin::Abandon => bar.abandon(), Fin::Msg(m) => bar.finish_with_message(m.clone()), Fin::AbandonMsg(m) => bar.abandon_with_message(m.clone()) }; hidden = matches!(f, Fin::Clear); }
             BOp::FinishStyle => { bar.finish_using_style(); hidden = matches!(c.on_finish, Fin::Clear); }
@@ -165,25 +176,30 @@ pub fn run_case(c: &Case) -> (String, String) {
                 rows
             };
             let frame_rows: usize = frame.iter().map(|l| wrap(l, w).len()).sum();
+            // 0 = as the statement demands, 1 = as the statement demands up to the listed finding F30, 2 = neither
+            let mut judge = |got: &Vec<String>, lg: &[String], lg30: &[String], fr: &[String]| -> u8 { if *got == exp(lg, fr) { 0 } else if *got == exp(lg30, fr) { 1 } else { 2 } };
             if frame_rows > c.h as usize {
                 // C19: only the leading bar lines that fit are painted; everything else as usual
                 let mut used = 0usize; let mut painted: Vec<String> = Vec::new();
                 for l in &frame { let r = wrap(l, w).len(); if used + r > c.h as usize { break; } used += r; painted.push(l.clone()); }
-                let e = exp(&logs, &painted);
-                if mid_logs.is_none() && st.snapshots[after - 1] != e { verdict = format!("FAIL overflow op={k} {} got={} exp={}", op.enc(), show_rows(&st.snapshots[after - 1]), show_rows(&e)); }
-            } else if frame_rows <= c.h as usize {
-                if let Some(ml) = &mid_logs {
-                    let e = exp(ml, &[]);
-                    if st.snapshots[before] != e { verdict = format!("FAIL suspend-clear op={k} got={} exp={}", show_rows(&st.snapshots[before]), show_rows(&e)); }
+                if mid_logs.is_none() { match judge(&st.snapshots[after - 1], &logs, &logs_f30, &painted) {
+                    0 => {}, 1 => { f30.get_or_insert(format!("FAIL F30-empty-line-swallowed op={k} {} got={}", op.enc(), show_rows(&st.snapshots[after - 1]))); }
+                    _ => verdict = format!("FAIL overflow op={k} {} got={} exp={}", op.enc(), show_rows(&st.snapshots[after - 1]), show_rows(&exp(&logs, &painted))) } }
+            } else {
+                if let Some((ml, ml30)) = &mid_logs {
+                    match judge(&st.snapshots[before], ml, ml30, &[]) { 0 => {}, 1 => { f30.get_or_insert(format!("FAIL F30-empty-line-swallowed op={k} suspend")); }
+                        _ => verdict = format!("FAIL suspend-clear op={k} got={} exp={}", show_rows(&st.snapshots[before]), show_rows(&exp(ml, &[]))) }
                 }
-                let e = exp(&logs, &frame);
-                if verdict == "ok" && st.snapshots[after - 1] != e { verdict = format!("FAIL screen op={k} {} got={} exp={}", op.enc(), show_rows(&st.snapshots[after - 1]), show_rows(&e)); }
+                if verdict == "ok" { match judge(&st.snapshots[after - 1], &logs, &logs_f30, &frame) {
+                    0 => {}, 1 => { f30.get_or_insert(format!("FAIL F30-empty-line-swallowed op={k} {} got={}", op.enc(), show_rows(&st.snapshots[after - 1]))); }
+                    _ => verdict = format!("FAIL screen op={k} {} got={} exp={}", op.enc(), show_rows(&st.snapshots[after - 1]), show_rows(&exp(&logs, &frame))) } }
                 // cursor: pending-wrap column on the last frame row, or column 0 when nothing is shown below the log
                 let (_, cc) = st.cursor_at_flush[after - 1];
                 if verdict == "ok" && !(cc == c.w || (cc == 0 && frame.is_empty())) { verdict = format!("FAIL cursor op={k} col={cc}"); }
             }
         }
     }
+    if verdict == "ok" { if let Some(v) = f30 { verdict = v; } }
     let st = rec.st.lock().unwrap();
     let snaps: Vec<String> = st.snapshots.iter().zip(st.cursor_at_flush.iter()).map(|(rows, (r, cc))| format!("{r},{cc} {}", show_rows(rows))).collect();
     let obs = format!("calls={} pos={} fin={} {}", st.calls, fin_state.0, fin_state.1, snaps.join(" ; "));
